@@ -4,7 +4,9 @@
   c = <test>; if c: ...      ->  if <test>: ...   (c a boolean temporary: assigned once, read once, by the very next statement's test)
   c = <test>; if not c: ...  ->  if not <test>: ...
 
-Both rewrites keep the meaning of the program; node positions are those of the original test, so reports still name the source line."""
+  if c: ...; return  else: S ->  if c: ...; return   followed by S   (likewise continue / break / raise: an else after a branch that leaves is flattened)
+
+All rewrites keep the meaning of the program; node positions are those of the original test, so reports still name the source line."""
 from __future__ import annotations
 
 import ast
@@ -66,7 +68,28 @@ def _inline_bool_temps(fn: ast.AST) -> None:
             h.body = block(h.body)
 
 
+def _flatten_else_after_exit(tree: ast.AST) -> None:
+    def block(stmts: List[ast.stmt]) -> List[ast.stmt]:
+        out: List[ast.stmt] = []
+        for st in stmts:
+            out.append(st)
+            if isinstance(st, ast.If) and st.orelse and st.body and isinstance(st.body[-1], (ast.Return, ast.Continue, ast.Break, ast.Raise)):
+                rest = st.orelse
+                st.orelse = []
+                out.extend(block(rest))
+        return out
+
+    for x in ast.walk(tree):
+        for fld in ("body", "orelse", "finalbody"):
+            v = getattr(x, fld, None)
+            if isinstance(v, list) and v and isinstance(v[0], ast.stmt):
+                setattr(x, fld, block(v))
+        for h in getattr(x, "handlers", []) or []:
+            h.body = block(h.body)
+
+
 def canonicalise(tree: ast.Module) -> ast.Module:
+    _flatten_else_after_exit(tree)
     for x in ast.walk(tree):
         if isinstance(x, (ast.FunctionDef, ast.AsyncFunctionDef)):
             _inline_bool_temps(x)
